@@ -231,6 +231,10 @@ class FunctionVerifier:
             ex.oblige(p, g, f'{fshort0}/lemma[{n_l}]', c.props, 'lemma', fi.node.lineno)
             p.add(g)
         entry.pc = list(p.pc)
+        for gname, src in (getattr(c, 'entry_ghost', None) or {}).items():
+            # ghost bookkeeping that entering this function performs by definition (e.g. `handled` counts handler
+            # invocations): applied to the body's state, old() still sees the value at the call
+            p.ghost[gname] = ex.spec.ev(ast.parse(src, mode='eval').body, ctx0)
         info = {'paths_normal': 0, 'paths_raise': 0, 'vacuous': False}
         if not p.feasible():
             info['vacuous'] = True
@@ -340,6 +344,14 @@ class FunctionVerifier:
         for n_e, src in enumerate(getattr(c, 'exc_ensures', []) or []):
             g = ex.spec.bool(ast.parse(src, mode='eval').body, ctx)
             ex.oblige(o.p, g, f'{fshort}/exc_ensures[{n_e}]', c.props, 'ensures', None)
+        for rc, clauses in (getattr(c, 'exc_ensures_for', None) or {}).items():
+            # what the function guarantees when it raises this particular class (exception attributes are visible as
+            # exc_<attr>)
+            if exc.symid is None and self.repo.is_subclass(exc.cls, rc):
+                for cname_, src in clauses.items():
+                    pr, _, nm = cname_.rpartition(':')
+                    g = ex.spec.bool(ast.parse(src, mode='eval').body, ctx)
+                    ex.oblige(o.p, g, f'{fshort}/raises:{rc}/{nm}', pr.split(',') if pr else c.props, 'ensures', None)
 
 
 def run_function(repo, fq, receiver=None, timeout_ms=10000):
